@@ -385,28 +385,60 @@ def reread(g):
     finally: shutil.rmtree(d, ignore_errors=True)
 
 
-def centre_close(c, c2):
-    """block centres are written with four significant digits (10.3e)"""
+def field_half_unit(val, fmt):
+    """half a unit of the last digit a fixed-width field of format `fmt` (e.g. '10.4e', '10.7f') carries for `val`:
+    the text is '%<fmt>' % val, with fewer decimals when that is wider than the field (the writer's rule); None if no
+    precision fits.  This is the statement's "to the digits its field carries", computed here from the format alone."""
+    spec, typ = fmt[:-1], fmt[-1]
+    w, _, prec = spec.partition('.')
+    width, prec = abs(int(w)), int(prec or 6)
+    for p in range(prec, -1, -1):
+        text = ('%%%s.%d%s' % (w, p, typ)) % val
+        if len(text) <= width:
+            if typ == 'f': return 0.5 * 10.0 ** (-p)
+            if typ == 'e': return 0.5 * 10.0 ** (int(text.lower().partition('e')[2]) - p)
+            return 0.5 * 10.0 ** (math.floor(math.log10(abs(val))) - max(p, 1) + 1) if val else 0.5 * 10.0 ** (-p)
+    return None
+
+
+def file_formats():
+    """the formats of the ELEME / CONNE fields the signature goes through (standard precision), from the module's table"""
+    import t2data as M
+    b = dict(zip(*M.t2data_format_specification['blocks'])); c = dict(zip(*M.t2data_format_specification['connections']))
+    return {'volume': b['volume'], 'centre': (b['x'], b['y'], b['z']), 'distance': (c['distance1'], c['distance2']), 'area': c['area'], 'dircos': c['dircos']}
+
+
+def carried(a, b, fmt):
+    """b is a read back from a field of format fmt: equal to the digits the field carries (either sign: the signature re-orients cosines)"""
+    if a is None or b is None: return a is None and b is None
+    a, b = float(a), float(b)
+    hs = [h for h in (field_half_unit(a, fmt), field_half_unit(-a, fmt)) if h is not None]
+    if not hs: return False
+    return abs(a - b) <= max(hs) * (1. + 1e-9) + 1e-300
+
+
+def centre_close(c, c2, fmts):
     if c is None or c2 is None: return c is None and c2 is None
-    return len(c) == len(c2) and all(abs(a - b) <= 6e-4 * max(abs(a), abs(b)) + 1e-9 for a, b in zip(c, c2))
+    return len(c) == len(c2) and all(carried(a, b, f) for a, b, f in zip(c, c2, fmts))
 
 
 def file_roundtrip_diff(g, ph):
     """write the grid in a TOUGH2 data file and read it back: the whole signature (volume, rock type, centre of every block;
-    area, direction, own distances, oriented cosine of every connected pair) must survive to file precision"""
+    area, direction, own distances, oriented cosine of every connected pair) must come back to the digits its field carries"""
     back = reread(g)
+    F = file_formats()
     (B, C), (B2, C2) = ph, phys(back)
-    close = lambda a, b: (a is None and b is None) or (a is not None and b is not None and abs(a - b) <= 2e-4 * max(abs(a), abs(b)) + 1e-12)
     if set(B) != set(B2): return 'block names differ after write/read: %r' % sorted(set(B) ^ set(B2))[:4]
     for n in B:
-        if not close(B[n][0], B2[n][0]) or B[n][1] != B2[n][1]: return 'block %r: %r read back as %r' % (n, B[n], B2[n])
-        if not centre_close(B[n][2], B2[n][2]): return 'block %r: centre %r read back as %r' % (n, B[n][2], B2[n][2])
+        if not carried(B[n][0], B2[n][0], F['volume']) or B[n][1] != B2[n][1]: return 'block %r: %r read back as %r' % (n, B[n], B2[n])
+        if not centre_close(B[n][2], B2[n][2], F['centre']): return 'block %r: centre %r read back as %r' % (n, B[n][2], B2[n][2])
     if set(C) != set(C2): return 'connected pairs differ after write/read: %r' % sorted(set(C) ^ set(C2))[:4]
     for k in C:
         if len(C[k]) != len(C2[k]): return 'pair %r multiplicity' % (k,)
         for (a, d_, e, cs), (a2, d2, e2, cs2) in zip(C[k], C2[k]):
-            if not close(a, a2) or d_ != d2 or not close(cs, cs2) or [x[0] for x in e] != [x[0] for x in e2] or \
-               any(not close(x[1], y[1]) for x, y in zip(e, e2)):
+            # either end of the pair may be written first: a distance goes through distance1 or distance2 (same format in the table)
+            if not carried(a, a2, F['area']) or d_ != d2 or not carried(cs, cs2, F['dircos']) or [x[0] for x in e] != [x[0] for x in e2] or \
+               any(not (carried(x[1], y[1], F['distance'][0]) or carried(x[1], y[1], F['distance'][1])) for x, y in zip(e, e2)):
                 return 'connection %r: %r read back as %r' % (k, (a, d_, e, cs), (a2, d2, e2, cs2))
     return None
 
@@ -843,13 +875,13 @@ def run(ctx):
                     'extraction: ExtrOcamlBasic + ExtrOcamlString, OCaml 4.13.1, ocaml/main.ml; PTBase.Wire helpers',
                     'the Python statement of the physical signature and of the MINC / embed clauses, the dump comparator (1e-12 relative on numbers) in tools/props/C09.py',
                     'float arithmetic of the interpreter for the MINC/embed volume comparisons of the oracle (relative tolerance 1e-9)']
-    ctx.assumptions += ['payload values are compared exactly for reorder/rename (they are moved, at most negated, never recomputed); to 2e-4 relative after a data-file write/read (5 significant digits on file)',
+    ctx.assumptions += ['payload values are compared exactly for reorder/rename (they are moved, at most negated, never recomputed); to the digits the ELEME/CONNE field carries after a data-file write/read',
                         'rename maps are one-to-one on the grid\'s blocks; reorder lists name every block / connection exactly once',
                         'MINC / embed theorems are in exact rational arithmetic (fractions normalised by their exact sum); the implementation works in doubles (dumps compared to 1e-12, oracle to 1e-9)',
                         'MINC theorems assume a well-formed grid (dictionaries describe the lists, connections join blocks of the grid, rock types filed under their names) and a selection of distinct names of blocks of the grid; the oracle counts how many real grids meet this (wf-hypothesis-holds)',
                         'MINC connection areas/distances: the model reproduces original_vol * a[m-1] and [d[m-1], d[m]] from the probed d[], a[]; whether d[], a[] are the right geometry for the proximity function is not checked',
                         'embed: total volume is compared by the oracle when the host is not a 1e25 atmosphere block (1e25 - v is not representable); the model comparison covers those too',
-                        'embed: the size test uses the volume of the host OBJECT in the connection, the subtraction goes to the block of the result filed under its name (as the code and the model do); centres after a file round trip are compared to 6e-4 relative (10.3e on file)',
+                        'embed: the size test uses the volume of the host OBJECT in the connection, the subtraction goes to the block of the result filed under its name (as the code and the model do); after a file round trip every number is compared to half a unit of the last digit its field carries (format from t2data_format_specification, fewer decimals when the text would not fit)',
                         'the state of a grid after minc / embed raised is not modelled (only the exception class is compared)']
     ctx.stage()
     ok = ctx.coq_build(props=('Props.v',))
